@@ -31,6 +31,7 @@ Units(first) ==
   LET conns == IF first /\ Mode = "c02" THEN {"W", "N"} ELSE {"W", "N", "O"} IN
   IF Mode = "c09"
   THEN UNION {EmptyShapes(c) : c \in conns} \cup {F(c, "raw", "atom", "A", "-", "sp") : c \in conns} \cup {F(c, "map", "and", "A", "B", "sp") : c \in conns}
+       \cup {F("W", "empty", e, "-", "-", "inl") : e \in {"str", "map", "struct", "slice"}}     \* empty inline condition handed to Delete
   ELSE UNION {Shapes(c) : c \in conns}
 
 \* flat -> unit of Cond
